@@ -63,6 +63,10 @@ func (g *Generator) makeStr(typeName string) {
 					// "X T". We have a type. Remember it.
 					ident, ok := vspec.Type.(*ast.Ident)
 					if !ok {
+						// "X pkg.T = 1". Not the type we're looking for: skip this
+						// vspec and forget the remembered type, so that specs carried
+						// down from it are not taken for constants of that type.
+						typ = ""
 						continue
 					}
 					typ = ident.Name
